@@ -24,6 +24,7 @@ import (
 	"github.com/dfklegend/cell2/baseapp/interfaces"
 	"github.com/dfklegend/cell2/baseapp/module"
 	nodeapp "github.com/dfklegend/cell2/node/app"
+	nodeservice "github.com/dfklegend/cell2/node/service"
 	"github.com/dfklegend/cell2/utils/runservice"
 )
 
@@ -52,50 +53,55 @@ func (c *caseT) isApp() bool { return c.kind >= 1 }
 
 const launchMode = "c11verif"
 
-var nodeCfgDir string
+var (
+	nodeCfgDirs = map[string]string{} // svc pattern -> configuration directory
+	nodeInit    bool
+)
 
-// nodeCfg writes a minimal node configuration (one node, no services, clustering and node control off).
-func nodeCfg() string {
-	if nodeCfgDir != "" {
-		return nodeCfgDir
+type noopCreator struct{}
+
+func (noopCreator) Create(name string) {}
+
+// nodeCfg writes a minimal node configuration: one node, clustering and node control off.  `svc` is
+// the node's service list, one letter per service: P = the service has an entry under `services:`,
+// M = it is named by the node but missing from the services map (tolerated by StartServices: log and skip).
+func nodeCfg(svc string) string {
+	if !nodeInit {
+		nodeInit = true
+		nodeservice.Factory.Register("c11svc", noopCreator{})
+		baseapp.RegisterLaunchFunc(launchMode, func(app interfaces.IApp) {
+			c := cur
+			if c == nil || c.added { // a launch mode of our own: it adds the case's modules once
+				return
+			}
+			c.added = true
+			for _, m := range c.mods {
+				app.AddModule(m)
+			}
+		})
+	}
+	if d, ok := nodeCfgDirs[svc]; ok {
+		return d
 	}
 	dir, err := os.MkdirTemp("", "c11node")
 	if err != nil {
 		panic(err)
 	}
-	nodes := "---\nnodes:\n  n1:\n    StartMode: " + launchMode + "\n    Address: 127.0.0.1:39511\nservices:\n"
+	var names, entries []string
+	for i, ch := range svc {
+		name := fmt.Sprintf("svc%d", i)
+		names = append(names, name)
+		if ch == 'P' {
+			entries = append(entries, "  "+name+":\n    Type: c11svc\n")
+		}
+	}
+	nodes := "---\nnodes:\n  n1:\n    StartMode: " + launchMode + "\n    Address: 127.0.0.1:39511\n    Services: [" + strings.Join(names, ", ") + "]\nservices:\n" + strings.Join(entries, "")
 	cluster := "---\nEnable: false\nNodeCtrl: false\nName: c11verif\n"
 	os.WriteFile(filepath.Join(dir, "nodes.yaml"), []byte(nodes), 0o644)
 	os.WriteFile(filepath.Join(dir, "cluster.yaml"), []byte(cluster), 0o644)
-	baseapp.RegisterLaunchFunc(launchMode, func(app interfaces.IApp) {
-		c := cur
-		if c == nil || c.added { // a launch mode of our own: it adds the case's modules once
-			return
-		}
-		c.added = true
-		for _, m := range c.mods {
-			app.AddModule(m)
-		}
-	})
-	nodeCfgDir = dir
+	nodeCfgDirs[svc] = dir
 	return dir
 }
-
-var (
-	enterTok = [2]string{"S", "X"}
-	callTok  = [2]string{"c", "d"}
-	panicTok = [2]string{"p", "q"}
-	finTok   = [2]string{"fs", "fx"}
-)
-
-func tf(b bool) string {
-	if b {
-		return "T"
-	}
-	return "F"
-}
-
-func (c *caseT) logf(f string, a ...interface{}) { c.log = append(c.log, fmt.Sprintf(f, a...)) }
 
 func (m *mod) Init(rs *runservice.StandardRunService) {}
 
@@ -285,7 +291,8 @@ func exec(op string) string {
 		cur = c
 		switch c.kind {
 		case 2: // the launch mode adds the modules inside StartNode
-			dir := nodeCfg()
+			svc, _ := hx.KV(ws, "svc")
+			dir := nodeCfg(svc)
 			c.node = nodeapp.NewNode()
 			c.node.Prepare(dir)
 		case 1:
@@ -457,6 +464,19 @@ func join(n int, f func(i int) string) string {
 
 func allT(i int) string { return "T" }
 
+// service lists of the node (app=2): none, all present, the missing one first / in the middle / last, all missing
+var svcPatterns = []string{"", "P", "M", "PPP", "MPP", "PMP", "PPM", "MMM", "MPM"}
+
+// svcOpt picks the node's service list for a node case (k = any counter / random number).
+func (g *gen) svcOpt(app, k int) string {
+	if app != 2 {
+		return ""
+	}
+	p := svcPatterns[k%len(svcPatterns)]
+	g.h.Count("node.services." + p)
+	return " svc=" + p
+}
+
 // exhaustive: every list length, every failure position (or none), every choice of
 // synchronous / delayed completion per module, in both phases; ModList, App and node in turn.
 func (g *gen) exhaustive(maxN int) {
@@ -479,11 +499,11 @@ func (g *gen) exhaustive(maxN int) {
 					}
 					app := (n + fail + 1 + mask + ph) % 3
 					if ph == 0 {
-						g.run(fmt.Sprintf("reset n=%d app=%d kind=gen start=%s stop=%s", n, app, join(n, scr), join(n, allT)))
+						g.run(fmt.Sprintf("reset n=%d app=%d kind=gen start=%s stop=%s%s", n, app, join(n, scr), join(n, allT), g.svcOpt(app, cases)))
 						g.drive(0, outcome)
 						g.drive(1, allT) // app: refused unless the start succeeded
 					} else {
-						g.run(fmt.Sprintf("reset n=%d app=%d kind=gen start=%s stop=%s", n, app, join(n, allT), join(n, scr)))
+						g.run(fmt.Sprintf("reset n=%d app=%d kind=gen start=%s stop=%s%s", n, app, join(n, allT), join(n, scr), g.svcOpt(app, cases)))
 						g.drive(0, allT)
 						g.drive(1, outcome)
 						g.run("begin ph=X") // a second Stop: refused by the App guard, a fresh phase on a plain ModList
@@ -530,7 +550,7 @@ func (g *gen) reentrant(maxN int) {
 						if app > 0 { // on a plain ModList there is no guard: Start from the stop callback re-enters the lock
 							cbX = []string{"none", "start", "stop"}[(n+fail+1+v)%3]
 						}
-						g.run(fmt.Sprintf("reset n=%d app=%d kind=gen start=%s stop=%s cbS=%s cbX=%s", n, app, join(n, scr), join(n, stopScr), cbS, cbX))
+						g.run(fmt.Sprintf("reset n=%d app=%d kind=gen start=%s stop=%s cbS=%s cbX=%s%s", n, app, join(n, scr), join(n, stopScr), cbS, cbX, g.svcOpt(app, cases)))
 						g.drive(0, outcome)
 						g.settle(1, allT) // the stop phase that the callback began
 						g.run("begin ph=X")
@@ -596,7 +616,7 @@ func (g *gen) randomCase() {
 		cb = fmt.Sprintf(" cbS=%s cbX=%s", []string{"stop", "gostop"}[h.R.Intn(2)], cbX)
 		h.Count("case.callbacks")
 	}
-	g.run(fmt.Sprintf("reset n=%d app=%d kind=%s start=%s stop=%s%s", n, app, kind, strings.Join(st, ","), strings.Join(sp, ","), cb))
+	g.run(fmt.Sprintf("reset n=%d app=%d kind=%s start=%s stop=%s%s%s", n, app, kind, strings.Join(st, ","), strings.Join(sp, ","), cb, g.svcOpt(app, h.R.Intn(len(svcPatterns)))))
 	steps := 2 + h.R.Intn(10)
 	for s := 0; s < steps; s++ {
 		r := h.R.Intn(10)
@@ -683,7 +703,7 @@ func (g *gen) shipped() {
 				if m.Phase == "stop" {
 					st, sp = sp, st
 				}
-				g.run(fmt.Sprintf("reset n=3 app=%d kind=shipped start=%s stop=%s name=%s", pos%3, st, sp, m.Name))
+				g.run(fmt.Sprintf("reset n=3 app=%d kind=shipped start=%s stop=%s name=%s%s", pos%3, st, sp, m.Name, g.svcOpt(pos%3, len(path)+pos)))
 				g.run("begin ph=S")
 				g.run("begin ph=X")
 				g.h.Count("shipped.path-replayed")
@@ -725,7 +745,7 @@ func TestRun(t *testing.T) {
 		g.randomCase()
 	}
 	dispose(cur)
-	if nodeCfgDir != "" {
-		os.RemoveAll(nodeCfgDir)
+	for _, d := range nodeCfgDirs {
+		os.RemoveAll(d)
 	}
 }
